@@ -1,6 +1,6 @@
 ENGINES = [
-    {'name': 'simw', 'path': 'engine/simw', 'serves_properties': ['C01'], 'kind_free_text': 'width-scaled recompilation of the real source (model immintrin.h + asm translated from its text), exhaustive over all operand values at w=2,4,8'},
-    {'name': 'lift64', 'path': 'harness', 'serves_properties': ['C01'], 'kind_free_text': 'exhaustive tuples over 64-bit boundary alphabets on the compiled library, closure over library-produced non-canonical values'},
+    {'name': 'simw', 'path': 'engine/simw', 'serves_properties': ['C01','C02','C11'], 'kind_free_text': 'width-scaled recompilation of the real source (model immintrin.h + asm translated from its text), exhaustive over all operand values at w=2,4,8'},
+    {'name': 'lift64', 'path': 'harness', 'serves_properties': ['C01','C02','C11'], 'kind_free_text': 'exhaustive tuples over 64-bit boundary alphabets on the compiled library, closure over library-produced non-canonical values'},
 ]
 NOTES = 'All checks: bin/check <ID> --tier quick|thorough; rebuilds harnesses from /repo/src on every run; KNOWN_FINDINGS.txt lists recorded defects.'
 NOT_APPLICABLE = {}
@@ -10,3 +10,11 @@ CHECKS['C01'] = {
     'text': 'Every operand pair of the structurally identical field at half-word width w is executed through the repository source (asm blocks translated from their text) for all ops, overloads and aliasing forms, and every pair over a 64-bit boundary alphabet (plus values the library itself produces) through the compiled code; oracle is __int128 arithmetic. A universal claim over 2^128 pairs cannot be enumerated at 64 bits; the small-scope enumeration is complete per width and the 64-bit layer pins the compiled instructions.',
     'note': 'Trusted: the 12-mnemonic x86 semantics in engine/simw/simw_asm.h (bit-exact at w=32 by conformance run), the half-word constant scaling rule, __int128 oracle. Not covered: a defect that exists only at w=32 and off the alphabets/closure.',
 }
+
+for _id,_fam,_n in (('C02','AVX2','4'),('C11','AVX-512','8')):
+    CHECKS[_id] = {
+        'engine': 'simw+lift64',
+        'technique': 'exhaustive enumeration of all admitted operand pairs per kernel on the width-scaled real header (w=2,4; 8 thorough), all alphabet pairs on the compiled kernels, model-vs-hardware conformance and path-signature lifting',
+        'text': 'Each '+_fam+' lane kernel is executed from the repository header, recompiled at half-word width w against a software intrinsics model, on every operand pair its documented assumption admits, in every lane position; the compiled kernels run on all ordered pairs of a 64-bit boundary alphabet; the w=32 model is compared bit-for-bit with the hardware on those pairs and every path signature seen at small width is matched by a 64-bit execution on the compiled kernel. Lanes are independent so per-lane pair enumeration covers the register-content quantifier.',
+        'note': 'Trusted: the software model of the intrinsics (bound to hardware by the conformance step), operand assumptions as read from header comments, __int128 oracle. Not covered: defects present only at w=32 off the alphabet and off every lifted path class.',
+    }
